@@ -365,6 +365,40 @@ def run_fixed_cases(res, use_numba, ScalarExpression):
                 mech = "simplify-moves-fractional-power-inside-abs" if not np.isfinite(have) and explained_by_abs_of_power(e, {"x": x}, want, 1e-12) else None
                 res.violation(f"{b} function: value differs from the written formula", {"expression": text, "sympy_form": str(e._sympy_expr), "arguments": {"x": x}},
                               mechanism=mech, have=have, want=want)
+    # ---- fields from expressions with user functions (array-capable or scalar-only) and constants ------------
+    import pde
+
+    def f_lin(x):
+        return 2 * x + 1
+
+    def ramp(x):  # scalar-only: forces the point-wise evaluation; integer-valued on the negative branch
+        return x if x > 0 else 0
+
+    def step(x):  # scalar-only, always integer-valued
+        return 1 if x > 0.2 else 0
+
+    fgrid = pde.CartesianGrid([[-1.0, 1.0], [-0.5, 1.5]], [4, 3])
+    X, Y = fgrid.cell_coords[..., 0], fgrid.cell_coords[..., 1]
+    vr, vs = np.vectorize(ramp, otypes=[float]), np.vectorize(step, otypes=[float])
+    funcs = {"f": f_lin, "ramp": ramp, "step": step}
+    for text, want in [
+        ("ramp(x)", vr(X)), ("2 * ramp(x) + 1", 2 * vr(X) + 1), ("ramp(x + y)", vr(X + Y)), ("ramp(x) * y + step(y)", vr(X) * Y + vs(Y)),
+        ("f(x) - ramp(y)", f_lin(X) - vr(Y)), ("step(x) + 0.5 * y", vs(X) + 0.5 * Y), ("ramp(x)**2 + ramp(-x)", vr(X) ** 2 + vr(-X)),
+        ("k * ramp(x - y)", 1.5 * vr(X - Y)), ("f(x * y) + k", f_lin(X * Y) + 1.5), ("step(y - x)", vs(Y - X)),
+    ]:
+        case = {"expression": text, "user_functions": sorted(funcs), "consts": {"k": 1.5}, "grid": "CartesianGrid([[-1, 1], [-0.5, 1.5]], [4, 3])"}
+        try:
+            sf = pde.ScalarField.from_expression(fgrid, text, user_funcs=dict(funcs), consts={"k": 1.5})
+            res.count("field_constructions")
+            if sf.data.shape != want.shape or not (np.abs(sf.data - want) <= 1e-13 * (1 + np.abs(want))).all():
+                res.violation("ScalarField.from_expression with user functions differs from the formula at the cell centres", case, have=sf.data, want=want)
+            if "ramp" not in text and "step" not in text:
+                # only the scalar constructor falls back to point-wise evaluation for scalar-only functions
+                vf = pde.VectorField.from_expression(fgrid, [text, "y - f(x)"], user_funcs=dict(funcs), consts={"k": 1.5})
+                if not (np.abs(vf.data[0] - want) <= 1e-13 * (1 + np.abs(want))).all() or not np.allclose(vf.data[1], Y - f_lin(X), rtol=1e-13, atol=1e-15):
+                    res.violation("VectorField.from_expression with user functions differs from the formulas", case, have=vf.data[0], want=want)
+        except Exception as exc:
+            res.violation(f"from_expression with user functions raised {type(exc).__name__}: {str(exc)[:200]}", case)
     # ---- integer coefficients beyond 64 bits (power towers) ---------------------------------------------------
     for text, x, want in [("(x + x)**81", 0.6, 1.2**81), ("(3*x)**45 - x", 0.4, 1.2**45 - 0.4), ("x * 2**64 + 1", 0.5, 2.0**63 + 1), ("(x / 3)**50 * 3**50", 1.5, 1.5**50)]:
         e = None
